@@ -30,7 +30,8 @@ Inductive top :=
 | OIndexOf (v : N) (from : Z) | OIncludes (v : N) (from : Z)
 | OSort (ck : N)                                     (* a consistent comparator, see [cmp_of] *)
 | OSortObs (log : list (N * N * Z)) (out : list (option N))   (* arbitrary recorded comparator + observed result *)
-| OExport.
+| OExport
+| OToggle (to_sparse : bool).                       (* twin only: the storage was switched (no-op for S) *)
 Arguments OSet _ (_ _)%N.  Arguments OSetLen _ _ _%N.  Arguments ODefine _ _%N _.  Arguments ODefLen _ _%N _.
 Arguments ODelete _ _%N.  Arguments OGet _%N.  Arguments OHas _%N.  Arguments OProto (_ _ _ _)%N.
 Arguments OPush _%N.  Arguments OUnshift _%N.  Arguments OSplice _%Z _%Z _%N.  Arguments OFill _%N _%Z _%Z.
@@ -43,10 +44,11 @@ Inductive obs := Ob (r : result) (d : dump).
 
 (* kind 0 = Array, 1 = array-like plain object.  init = the literal; obsN = the normal run; obsT = the twin
    forced through storage transitions (empty if there is none) *)
-Record tcase := mkCase { c_kind : N; c_init : list (option N); c_ops : list top; c_obsN : list obs;
+Record tcase := mkCase { c_strict : bool;      (* corpus cases of recorded findings: no explanation by I accepted *)
+                         c_kind : N; c_init : list (option N); c_ops : list top; c_obsN : list obs;
                          c_opsT : list top;       (* [] = the same ops (differs only by recorded comparator logs) *)
                          c_obsT : list obs }.
-Arguments mkCase _%N _%N _ _ _ _.
+Arguments mkCase _ _%N _%N _ _ _ _.
 
 (* ---- decoding ------------------------------------------------------------------------------- *)
 Definition oN (c : N) : option N := if c =? 0 then None else Some (c - 1).
@@ -114,7 +116,15 @@ Section Step.
 Context {A : Type} (O : oops A).
 Let P := o_prims O.
 
+Definition looping (o : top) : bool :=
+  match o with
+  | OShift | OUnshift _ | OSplice _ _ _ | OReverse | OFill _ _ _ | OCopyWithin _ _ _ | OSlice _ _ | OConcat _
+  | OConcatV _ | OIndexOf _ _ | OIncludes _ _ | OSort _ | OSortObs _ _ | OExport => true
+  | _ => false
+  end.
+
 Definition step (a : A) (o : top) : A * result :=
+  if looping o && (1000 <? p_len P a) then (a, RErr 95) else    (* the harness never issues these on long arrays *)
   match o with
   | OSet refl k v => let '(a', b) := p_set P a k v in (a', bres refl b)
   | OSetLen refl valid n => let '(a', e) := o_assign_len O a (dec_len valid n) in (a', eres refl e)
@@ -137,7 +147,14 @@ Definition step (a : A) (o : top) : A * result :=
   | OFill v st en => a_fill P a v st en
   | OCopyWithin t s en => a_copyWithin P a t s en
   | OSlice st en => (a, a_slice P a st en)
-  | OConcat items => (a, a_concat P a (map inr items))
+  | OConcat items =>
+      (* the argument arrays are ordinary arrays: their holes read through Array.prototype *)
+      let fillp (it : list (option N)) :=
+        map (fun p => match snd p with
+                      | Some v => Some v
+                      | None => match alookup (o_proto O a) (fst p) with Some e => Some (el_getv e) | None => None end
+                      end) (combine (seqN 0 (length it)) it) in
+      (a, a_concat P a (map (fun it => inr (fillp it)) items))
   | OConcatV v => (a, a_concat P a [inl v])
   | OIndexOf v from => (a, a_indexOf P a v from)
   | OIncludes v from => (a, a_includes P a v from)
@@ -148,6 +165,7 @@ Definition step (a : A) (o : top) : A * result :=
       then a_sort_with P a (flat_map (fun x => match x with Some v => [v] | None => [] end) out)
       else (a, RErr 99)                    (* the validator rejected the observed result: never matches *)
   | OExport => (a, RA (norm_export (o_export O a)))
+  | OToggle _ => (a, RU)
   end.
 
 Definition dump_eqb_dec (x y : dump) : bool :=
@@ -199,6 +217,44 @@ Definition opsI : oops iarr :=
   mkO iarr primI i_define i_assign_len i_define_length i_getown i_integ (fun a => b_proto (i_base a))
       i_with_proto i_export i_dump.
 
+(* I : the fast paths of builtin_array.go in front of the generic algorithms *)
+Definition stepI (a : iarr) (o : top) : iarr * result :=
+  if looping o && (1000 <? i_len a) then (a, RErr 95) else
+  match o with
+  | OPop => i_pop a
+  | OReverse => i_reverse a
+  | OFill v st en => i_fill a v st en
+  | OCopyWithin t s en => i_copyWithin a t s en
+  | OIndexOf v from => (a, i_indexOf a v from)
+  | OIncludes v from => (a, i_includes a v from)
+  | OSort ck => i_sort a (cmp_of ck)
+  | OSplice st dc items => i_splice a st dc items
+  | OSortObs log out =>
+      let input := view primI a 0 (N.to_nat (i_len a)) in
+      if check_sort_array (cmp_of_log log) input out
+      then i_sort_with a (flat_map (fun x => match x with Some v => [v] | None => [] end) out)
+      else (a, RErr 99)
+  | OToggle to_sparse =>
+      match a, to_sparse with
+      | ID d, true => (IS (expand_d2s d), RU)
+      | IS s, false =>
+          if 8000 <? sa_length s then (a, RU) else
+          let d := expand_s2d s (sa_length s - 1) in
+          (* the real forcing adds ~1100 elements and truncates: objCount keeps that surplus *)
+          (ID (mkDA (if sa_length s =? 0 then [] else da_values d) (da_length d) (da_objCount d + 1100)%Z
+                    (da_pvc d) (da_lw d) (da_base d)), RU)
+      | _, _ => (a, RU)
+      end
+  | _ => step opsI a o
+  end.
+Fixpoint runIops (a : iarr) (prev : dump) (ops : list top) : list obs :=
+  match ops with
+  | [] => []
+  | o :: r => let '(a', res) := stepI a o in
+              let d := i_dump a' in
+              Ob res (if dump_eqb_dec d prev then DSame else d) :: runIops a' d r
+  end.
+
 Fixpoint els_of (l : list (option N)) (i : N) : list (N * element) :=
   match l with
   | [] => []
@@ -228,17 +284,141 @@ Fixpoint first_diff (i : N) (xs ys : list obs) : option N :=
   | _, _ => Some i
   end.
 
-Definition runS (c : tcase) : list obs := run opsS (initS (c_kind c) (c_init c)) DSame (c_ops c).
-Definition runI (c : tcase) : list obs := run opsI (initI (c_init c)) DSame (c_ops c).
+Definition opsT_of (c : tcase) := match c_opsT c with [] => c_ops c | ops => ops end.
 
-Definition diffN (c : tcase) := first_diff 0 (c_obsN c) (runS c).
-Definition runST (c : tcase) : list obs :=
-  match c_opsT c with [] => runS c | ops => run opsS (initS (c_kind c) (c_init c)) DSame ops end.
-Definition diffT (c : tcase) := match c_obsT c with [] => None | t => first_diff 0 t (runST c) end.
-Definition diffI (c : tcase) := if c_kind c =? 0 then first_diff 0 (c_obsN c) (runI c) else None.
+(* run a model along the observations and stop at the first difference (after a divergence the remaining ops
+   would run on a state the harness's size guards know nothing about) *)
+Section Diff.
+Context {A : Type} (stepf : A -> top -> A * result) (dumpf : A -> dump).
+Fixpoint diff_run (a : A) (prev : dump) (ops : list top) (os : list obs) (i : N) : option N :=
+  match ops, os with
+  | [], [] => None
+  | o :: r, ob :: s =>
+      let '(a', res) := stepf a o in
+      let d := dumpf a' in
+      if obs_eqb ob (Ob res (if dump_eqb_dec d prev then DSame else d)) then diff_run a' d r s (i + 1) else Some i
+  | _, _ => Some i
+  end.
+(* what the model says at position n *)
+Fixpoint obs_at (a : A) (prev : dump) (ops : list top) (n : nat) : option obs :=
+  match ops with
+  | [] => None
+  | o :: r =>
+      let '(a', res) := stepf a o in
+      let d := dumpf a' in
+      match n with
+      | O => Some (Ob res (if dump_eqb_dec d prev then DSame else d))
+      | S n' => obs_at a' d r n'
+      end
+  end.
+End Diff.
 
+Definition stepS := step opsS.
+Definition diffN (c : tcase) := diff_run stepS s_dump (initS (c_kind c) (c_init c)) DSame (c_ops c) (c_obsN c) 0.
+Definition diffT (c : tcase) :=
+  match c_obsT c with [] => None | t => diff_run stepS s_dump (initS (c_kind c) (c_init c)) DSame (opsT_of c) t 0 end.
+Definition diffI (c : tcase) :=
+  if c_kind c =? 0 then diff_run stepI i_dump (initI (c_init c)) DSame (c_ops c) (c_obsN c) 0 else Some 0.
+Definition diffIT (c : tcase) :=
+  match c_obsT c with [] => None | t => diff_run stepI i_dump (initI (c_init c)) DSame (opsT_of c) t 0 end.
+
+(* ---- which recorded defect of the faithful model I is exercised at an op ---------------------- *)
+Fixpoint istate_at (a : iarr) (ops : list top) (n : nat) : iarr * option top :=
+  match n, ops with
+  | _, [] => (a, None)
+  | O, o :: _ => (a, Some o)
+  | S n', o :: r => istate_at (fst (stepI a o)) r n'
+  end.
+
+Definition nonconf_at (a : iarr) (k : N) : bool :=
+  match i_getown_iv a k with Some x => negb (iv_conf x) | None => false end.
+Definition idx_items (a : iarr) : list (N * ival) :=
+  match a with ID d => enum_from (da_values d) 0 | IS s => sa_items s end.
+Definition i_pvc (a : iarr) : Z := match a with ID d => da_pvc d | IS s => sa_pvc s end.
+Definition holey_guard (a : iarr) : bool :=
+  match a with
+  | ID d => d_guard d && negb (count_present (da_values d) =? Z.of_N (da_length d))%Z
+  | IS _ => false
+  end.
+Definition dirty (a : iarr) : bool :=
+  existsb (fun p => negb (iv_clean (snd p))) (idx_items a ++ b_ot (i_base a)).
+Definition shrink_target (a : iarr) (o : top) : option N :=
+  match o with
+  | OSetLen _ true n => if n <? i_len a then Some n else None
+  | ODefLen _ l _ => if (2 <=? l) && (l - 2 <? i_len a) then Some (l - 2) else None
+  | _ => None
+  end.
+Definition kind_change (a : iarr) (o : top) : bool :=
+  match o with
+  | ODefine _ k d =>
+      match i_getown_iv a k with
+      | Some x => let acc := match x with IProp p => vp_acc p | _ => false end in
+                  let dd := dec_dsc d in
+                  (acc && is_data_desc dd) || (negb acc && is_acc_desc dd)
+      | None => false
+      end
+  | _ => false
+  end.
+Definition values_longer (a : iarr) : bool :=
+  match a with ID d => da_length d <? nlen (da_values d) | _ => false end.
+
+(* tags (each names one recorded finding, see known/C07.json):
+   1 = stale valueProperty fields after a data<->accessor conversion (N1-N4, F1);
+   2 = this very define converts the kind of an existing property (F1, N1, N3, N4);
+   3 = the fast-path guard holds although the array has holes: drifted objCount (F3, F5, N5);
+   4 = F4: sparse storage, non-configurable element exactly at the new length;
+   6 = N6: a non-configurable element at/above the new length while propValueCount <= 0;
+   7 = N7: invalid length assigned to a non-writable length (RangeError instead of TypeError);
+   8 = N10: a failed fast-path splice left len(values) > length;
+   9 = N11: splice fast path on a non-extensible array *)
+Definition tags (a : iarr) (o : top) : list N :=
+  (if dirty a then [1] else []) ++
+  (if kind_change a o then [2] else []) ++
+  (if holey_guard a then [3] else []) ++
+  (match shrink_target a o with
+   | Some n =>
+       (match a with IS _ => if nonconf_at a n then [4] else [] | _ => [] end) ++
+       (if (i_pvc a <=? 0)%Z && existsb (fun p => (n <=? fst p) && negb (iv_conf (snd p))) (idx_items a) then [6] else [])
+   | None => []
+   end) ++
+  (if i_lw a then [] else
+   match o with
+   | OSetLen _ false _ => [7]
+   | OSetLen _ true n => if 4294967295 <? n then [7] else []
+   | OPush vs => if 4294967295 <? i_len a + nlen vs then [7] else []
+   | OUnshift vs => if 4294967295 <? i_len a + nlen vs then [7] else []
+   | _ => []
+   end) ++
+  (match o, a with
+   | OSplice _ _ _, ID d => if d_guard d && negb (b_ext (da_base d)) then [9] else []
+   | _, _ => []
+   end) ++
+  (if values_longer a then [8] else
+   match o with OSplice _ _ _ => if negb (i_lw a) then [8] else [] | _ => [] end).
+
+Definition tags_at (c : tcase) (ops : list top) (n : N) : list N :=
+  let '(ia, o) := istate_at (initI (c_init c)) ops (N.to_nat n) in
+  match o with Some o => tags ia o | None => [] end.
+
+(* a divergence from S is explained when the faithful model I reproduces the whole observation and the
+   diverging op lies in the region of a recorded defect *)
+Definition explainedN (c : tcase) : bool :=
+  match diffN c with
+  | None => true
+  | Some n => negb (c_strict c) && (c_kind c =? 0) &&
+              match diffI c with None => negb (match tags_at c (c_ops c) n with [] => true | _ => false end) | _ => false end
+  end.
+Definition explainedT (c : tcase) : bool :=
+  match diffT c with
+  | None => true
+  | Some n => negb (c_strict c) &&
+              match diffIT c with None => negb (match tags_at c (opsT_of c) n with [] => true | _ => false end) | _ => false end
+  end.
+
+(* once the normal run has entered the region of a recorded (storage-dependent) defect the twin is no longer
+   compared: it meets the same defect at other points of the history *)
 Definition check_case (c : tcase) : bool :=
-  match diffN c, diffT c with None, None => true | _, _ => false end.
+  explainedN c && match diffN c with Some _ => true | None => explainedT c end.
 
 Fixpoint mismatch_from (i : N) (cs : list tcase) : list N :=
   match cs with
@@ -247,62 +427,21 @@ Fixpoint mismatch_from (i : N) (cs : list tcase) : list N :=
   end.
 Definition mismatch_ids := mismatch_from 0%N.
 
-(* ---- diagnosis printed with a mismatch: which recorded defect of the faithful model I was exercised ---- *)
-Fixpoint istate_at (a : iarr) (ops : list top) (n : nat) : iarr * option top :=
-  match n, ops with
-  | _, [] => (a, None)
-  | O, o :: _ => (a, Some o)
-  | S n', o :: r => istate_at (fst (step opsI a o)) r n'
-  end.
-
-Definition nonconf_at (a : iarr) (k : N) : bool :=
-  match i_getown_iv a k with Some x => negb (iv_conf x) | None => false end.
-Definition idx_items (a : iarr) : list (N * ival) :=
-  match a with ID d => enum_from (da_values d) 0 | IS s => sa_items s end.
-Definition i_pvc (a : iarr) : Z := match a with ID d => da_pvc d | IS s => sa_pvc s end.
-Definition has_holes_below_len (a : iarr) : bool :=
-  match a with ID d => negb (count_present (da_values d) =? Z.of_N (da_length d))%Z | IS _ => true end.
-Definition fastpath_guard (a : iarr) : bool :=
-  match a with
-  | ID d => (da_pvc d =? 0)%Z && (da_length d =? nlen (da_values d)) && (da_objCount d =? Z.of_N (da_length d))%Z
-  | IS _ => false
-  end.
-Definition dirty (a : iarr) : bool :=
-  existsb (fun p => negb (iv_clean (snd p))) (idx_items a ++ b_ot (i_base a)).
-
-(* tags: 4 = F4 (sparse, non-configurable element exactly at the new length);
-         6 = N6 (a non-configurable element above the new length while propValueCount = 0);
-         3 = F3/F5/N5 (the fast-path guard holds although the array has holes);
-         1 = a valueProperty with stale fields exists (kind conversion in _defineOwnProperty) *)
-Definition shrink_target (a : iarr) (o : top) : option N :=
-  match o with
-  | OSetLen _ true n => if n <? i_len a then Some n else None
-  | ODefLen _ l _ => if (2 <=? l) && (l - 2 <? i_len a) then Some (l - 2) else None
-  | _ => None
-  end.
-Definition tags (a : iarr) (o : top) : list N :=
-  (match shrink_target a o with
-   | Some n =>
-       (match a with IS _ => if nonconf_at a n then [4] else [] | _ => [] end) ++
-       (if (i_pvc a <=? 0)%Z && existsb (fun p => (n <=? fst p) && negb (iv_conf (snd p))) (idx_items a) then [6] else [])
-   | None => []
-   end) ++
-  (if fastpath_guard a && has_holes_below_len a then [3] else []) ++
-  (if dirty a then [1] else []).
-
-Definition nth_obs (l : list obs) (n : N) : option obs := nth_error l (N.to_nat n).
-Definition omin (a b : option N) : option N :=
-  match a, b with Some x, Some y => Some (N.min x y) | Some x, None => Some x | None, y => y end.
-
-(* (first difference normal/S, twin/S, normal/I, tags of I at the first S difference, the op there,
-    what S and I say there) *)
+(* printed with a mismatch: (first difference normal/S, twin/S, normal/I, twin/I), tags at the first S
+   difference of the normal and of the twin run, then op / S says / I says at the first difference *)
 Definition expected (c : tcase) :=
-  let p := omin (diffN c) (diffT c) in
+  let tn := match diffN c with Some n => tags_at c (c_ops c) n | None => [] end in
+  let tt := match diffT c with Some n => tags_at c (opsT_of c) n | None => [] end in
+  let '(ops, p) :=
+    match diffN c, diffT c with
+    | Some n, _ => (c_ops c, Some n)
+    | None, Some n => (opsT_of c, Some n)
+    | None, None => ([], None)
+    end in
   match p with
-  | None => (diffN c, diffT c, diffI c, @nil N, @None top, @None obs, @None obs)
-  | Some n =>
-      let '(ia, o) := istate_at (initI (c_init c)) (c_ops c) (N.to_nat n) in
-      (diffN c, diffT c, diffI c,
-       match o with Some o => if c_kind c =? 0 then tags ia o else [] | None => [] end, o,
-       nth_obs (runS c) n, nth_obs (runI c) n)
+  | None => ((diffN c, diffT c, diffI c, diffIT c), (tn, tt), (@None top, @None obs, @None obs))
+  | Some n => ((diffN c, diffT c, diffI c, diffIT c), (tn, tt),
+               (nth_error ops (N.to_nat n),
+                obs_at stepS s_dump (initS (c_kind c) (c_init c)) DSame ops (N.to_nat n),
+                obs_at stepI i_dump (initI (c_init c)) DSame ops (N.to_nat n)))
   end.
